@@ -443,6 +443,20 @@ def nonOverlapAtClose (d : Nat) (bC : Node → Node → Bool) (nodes : List Node
 def nonOverlapClosed (d : Nat) (bC : Node → Node → Bool) (nodes : List Node) : List NOC :=
   nodes.flatMap (nonOverlapAtClose d bC nodes)
 
+/-- the scan with the `cs.push_back` of `NodeClose::process` recorded as well: the state machine of `scan` plus the
+    list of non-overlap constraints in creation order -/
+def stepNO (d : Nat) (acc : ScanSt × List NOC) (ev : Ev) : ScanSt × List NOC :=
+  match ev with
+  | .nodeClose n =>
+    let others := acc.1.openNodes.filter fun m => m.id != n.id
+    (step d acc.1 ev,
+     acc.2 ++ (match leftNb d n others with | some l => [mkNOC d l n] | none => []) ++
+              (match rightNb d n others with | some r => [mkNOC d n r] | none => []))
+  | _ => (step d acc.1 ev, acc.2)
+
+def scanNO (d : Nat) (tb : Ev → Nat) (nodes : List Node) (segs : List Seg) : ScanSt × List NOC :=
+  (sortEvents d tb (mkEvents d nodes segs)).foldl (stepNO d) ({}, [])
+
 /-- the constraint holds at node positions `x` -/
 def NOC.holds (c : NOC) (x : Pos) : Prop := x c.left.id + c.gap ≤ x c.right.id
 
